@@ -27,7 +27,7 @@ Proof. intros. apply Inv_run. apply Inv_init. assumption. Qed.
 Definition linked_complete (f : file) : Prop :=
   forall b o, In o (f_chain f b) ->
     exists r, find_rec o (f_recs f) = Some r /\ r_copied r = true /\ r_lenw r = true /\
-              nlen (r_name r) <= c_maxNameLen /\ bucket (r_name r) = b /\
+              1 <= nlen (r_name r) /\ nlen (r_name r) <= c_maxNameLen /\ bucket (r_name r) = b /\
               r_off r mod 32 = 0 /\ rec_start <= r_off r /\
               r_off r + rsize (r_name r) <= f_limit f /\ f_limit f <= f_size f /\
               r_off r / 16384 = (r_off r + rsize (r_name r)) / 16384 /\
@@ -42,7 +42,7 @@ Proof.
   intros f W b o I. pose proof W as [WL WC].
   destruct (WC b) as (ND & LR & LO & NN). destruct (LR o I) as (r & E & Cp & Lw & Bk).
   pose proof (find_rec_some _ _ _ E) as [Ir Eo].
-  destruct WL as (A & B & C & D & E0 & L & P & NDo & DM). destruct (L r Ir) as (L1 & L2 & L3 & L4 & L5).
+  destruct WL as (A & B & C & D & E0 & L & P & NDo & DM). destruct (L r Ir) as (L1 & L2 & L3 & L4 & L5 & L6).
   assert (Nx : r_next r = 0 \/ (In (r_next r) (f_chain f b) /\ r_next r < W32 - 32)).
   { destruct (suf_in o _ I) as (rest & Es).
     pose proof (linked_ok_suf f o _ rest LO Es) as Ln. unfold load_next in Ln. rewrite E in Ln.
@@ -58,7 +58,7 @@ Qed.
 
 Lemma wf_incomplete_unreachable : forall f, wf_shared f -> incomplete_unreachable f.
 Proof.
-  intros f W r Ir Bad b I. destruct (wf_linked_complete f W b _ I) as (r' & E & Cp & Lw & _ & _ & _ & _ & _ & _ & _ & _ & Nd).
+  intros f W r Ir Bad b I. destruct (wf_linked_complete f W b _ I) as (r' & E & Cp & Lw & _ & _ & _ & _ & _ & _ & _ & _ & _ & Nd).
   destruct W as [(_ & _ & _ & _ & _ & _ & _ & ND & _) _].
   rewrite (In_find_rec _ r ND Ir) in E. inversion E; subst r'.
   destruct Bad as [X|[X|X]]; congruence.
